@@ -76,13 +76,96 @@ def guard(j, site, feat, detail, cid, fn):
         return None
 
 
+def multi_case(j, e, sigma):
+    """class-level forms on sequences of twists / multi-valued poses (Screw.Multi3, Multi2)"""
+    import spatialmath.base as b
+    from spatialmath import SE3, SO3, SE2, SO2, Twist3, Twist2
+    c = e["c"]
+    n = len(e["m"])
+    if c["k"] == "multi3":
+        Ms = [gamma.T4(h, sigma) for h in e["m"]]
+        Ss = []
+        for q in c["qs"]:
+            S, th = twist_of({"q": q, "p": c["p"], "an": c["an"], "ad": c["ad"]})
+            S = S.copy()
+            S[:3] *= sigma
+            Ss.append(S)
+        Ss = np.array(Ss)
+        Ws = Ss[:, 3:]
+        Rs = [M[:3, :3] for M in Ms]
+        sc = max(1.0, max(float(np.linalg.norm(M[:3, 3])) for M in Ms))
+        feat = "multi3;n=%d;sigma=%g" % (n, sigma)
+        detail = {"kind": "multi3", "case": c, "sigma": sigma}
+        exps = {"SE3.Exp(Nx6_array)": (lambda: SE3.Exp(Ss), Ms, sc), "SE3.Exp(list_of_6-vectors)": (lambda: SE3.Exp([s_ for s_ in Ss]), Ms, sc),
+                "SE3.Exp(4x4_matrix)": (lambda: SE3.Exp(b.skewa(Ss[0])), Ms[:1], sc),
+                "SO3.Exp(Nx3_array,so3=False)": (lambda: SO3.Exp(Ws, so3=False), Rs, 1.0),
+                "SO3.Exp(3x3_so(3)_matrix)": (lambda: SO3.Exp(b.skew(Ws[0])), Rs[:1], 1.0),
+                "Twist3(Nx6).exp()": (lambda: Twist3([s_ for s_ in Ss]).exp(), Ms, sc),
+                "Twist3(Nx6).SE3()": (lambda: Twist3([s_ for s_ in Ss]).SE3(), Ms, sc)}
+        X = SE3([M for M in Ms], check=False)
+        XR = SO3([R for R in Rs], check=False)
+        logs = {"SE3[N].log(twist=True)": (lambda: X.log(twist=True), Ss, sc, None),
+                "SE3[N].log()": (lambda: [b.vexa(L) for L in X.log()], Ss, sc, None),
+                "SE3[N].Twist3()": (lambda: [t.S for t in X.Twist3()], Ss, sc, None),
+                "Twist3(SE3[N])": (lambda: [np.asarray(d) for d in Twist3(X).data], Ss, sc, None),
+                "SO3[N].log(twist=True)": (lambda: XR.log(twist=True), Ws, 1.0, None)}
+        expf, back = b.trexp, b.trexp
+        thmax = max(2.0 * math.atan2(float(np.linalg.norm(q[1:])), q[0]) for q in c["qs"])
+    else:
+        Ms = [gamma.T3(h, sigma) for h in e["m"]]
+        p = np.array(c["p"][:2], dtype=float) * sigma
+        ths = [2.0 * math.atan2(g[1], g[0]) for g in c["gs"]]
+        Ss = np.array([np.r_[th * p[1], -th * p[0], th] for th in ths])
+        sc = max(1.0, float(np.linalg.norm(p)), max(float(np.linalg.norm(M[:2, 2])) for M in Ms))
+        feat = "multi2;n=%d;sigma=%g" % (n, sigma)
+        detail = {"kind": "multi2", "case": c, "sigma": sigma}
+        exps = {"SE2.Exp(Nx3_array,se2=False)": (lambda: SE2.Exp(Ss, se2=False), Ms, sc),
+                "SE2.Exp(Nx3_array)": ((lambda: SE2.Exp(Ss)) if n != 3 else (lambda: SE2.Exp(Ss, se2=False)), Ms, sc), "SE2.Exp(list_of_3-vectors)": (lambda: SE2.Exp([s_ for s_ in Ss]), Ms, sc),
+                "SE2.Exp(3x3_matrix)": (lambda: SE2.Exp(b.skewa(Ss[0])), Ms[:1], sc),
+                "Twist2(Nx3).exp()": (lambda: Twist2([s_ for s_ in Ss]).exp(), Ms, sc)}
+        X = SE2([M for M in Ms], check=False)
+        logs = {"SE2[N].log(twist=True)": (lambda: X.log(twist=True), Ss, sc, None),
+                "SE2[N].Twist2()": (lambda: [t.S for t in X.Twist2()], Ss, sc, None),
+                "Twist2(SE2[N])": (lambda: [np.asarray(d) for d in Twist2(X).data], Ss, sc, None)}
+        thmax = max(abs(t) for t in ths)
+    for site, (fn, want, scale) in exps.items():
+        cid = (site, n, sigma)
+        r = guard(j, site, feat, detail, cid, fn)
+        if r is None:
+            continue
+        vals = [np.asarray(a, dtype=float) for a in r.data] if hasattr(r, "data") else None
+        if vals is None or len(vals) != len(want):
+            j.fail("%s|%s|%s|wrong-number-of-values" % (PID, site, feat), dict(detail, got=None if vals is None else len(vals)), cid)
+            continue
+        d = max(float(np.max(np.abs(v - w))) if v.shape == np.shape(w) else float("inf") for v, w in zip(vals, want))
+        check(j, d <= TOL * scale, site, feat, "wrong-exponential", dict(detail, distance=d), cid)
+    if thmax <= math.pi - 1e-6:
+        for site, (fn, want, scale, _) in logs.items():
+            cid = (site, n, sigma)
+            r = guard(j, site, feat, detail, cid, fn)
+            if r is None:
+                continue
+            try:
+                vals = [np.asarray(a, dtype=float) for a in r]
+            except Exception:  # noqa: BLE001
+                vals = None
+            if vals is None or len(vals) != len(want) or any(v.shape != np.shape(w) for v, w in zip(vals, want)):
+                j.fail("%s|%s|%s|not-one-twist-vector-per-value" % (PID, site, feat),
+                       dict(detail, got_shapes=None if vals is None else [list(v.shape) for v in vals]), cid)
+                continue
+            d = max(float(np.max(np.abs(v - w))) for v, w in zip(vals, want))
+            check(j, d <= TOL * scale, site, feat, "log-differs-from-coordinates", dict(detail, distance=d), cid)
+
+
 def lattice_case(j, e, sigma):
     import spatialmath.base as b
     from spatialmath import SE3, SO3, SE2, SO2, Twist3, Twist2
     c = e["c"]
+    k = c["k"]
+    if k in ("multi3", "multi2"):
+        return multi_case(j, e, sigma)
     M = gamma.T4(e["m"], sigma)
     sc = max(1.0, float(np.linalg.norm(M[:3, 3])))
-    k = c["k"]
     if k in ("screw3", "translation"):
         if k == "screw3":
             S, th = twist_of(c)
@@ -338,7 +421,7 @@ def run(tier):
         n += 1
         if e["c"]["k"] == "screw3" and not thorough and n % 4:
             continue
-        if e["c"]["k"] in ("unit3", "unit2"):
+        if e["c"]["k"] in ("unit3", "unit2", "multi3", "multi2"):
             scales = [1.0, 1e3] if thorough else [1.0]
         else:
             scales = [1.0, 1e-6, 1e3, 1e6] if (thorough or n % 8 == 0 or e["c"]["k"] != "screw3") else [1.0]
